@@ -42,10 +42,33 @@ type tracker struct {
 
 // pval is the value a scripted panic is raised with.
 func (t *tracker) pval(def string) any {
+	if rp, ok := t.panicVal.(runtimePanic); ok {
+		rp.raise() // a panic raised by the Go runtime itself, not by a panic statement
+	}
 	if t.panicVal != nil {
 		return t.panicVal
 	}
 	return def
+}
+
+// runtimePanic names a mistake that makes the Go runtime panic (the value recovered is a runtime.Error).
+type runtimePanic int
+
+func (rp runtimePanic) raise() {
+	switch rp % 4 {
+	case 0:
+		var m map[string]int
+		m["x"] = 1
+	case 1:
+		var s []int
+		_ = s[int(rp)+3]
+	case 2:
+		var p *tracker
+		_ = p.panicIn
+	default:
+		var v any = "a string"
+		_ = v.(int)
+	}
 }
 
 func (t *tracker) Name() string {
@@ -121,6 +144,8 @@ type stubHandler struct {
 	nCSRs int
 	fail  bool
 	plain bool // the failure is not one of the RA's typed errors (a third-party handler)
+	// unnamed: the typed failure does not name the handler it comes from (built with NewErr / NewErrWithMsg)
+	unnamed int
 }
 
 func (s *stubHandler) Name() string                     { return "stub" }
@@ -128,6 +153,12 @@ func (s *stubHandler) Authenticate(*csr.ReqParam) error { return nil }
 func (s *stubHandler) Generate(*csr.ReqParam) ([]csr.AgentKey, error) {
 	if s.fail && s.plain {
 		return nil, fmt.Errorf("scripted generation failure: %w", os.ErrDeadlineExceeded)
+	}
+	if s.fail && s.unnamed == 1 {
+		return nil, gensign.NewErr(gensign.HandlerGenCSRErr, errors.New("scripted generation failure"))
+	}
+	if s.fail && s.unnamed == 2 {
+		return nil, gensign.NewErrWithMsg(gensign.HandlerGenCSRErr, "scripted generation failure")
 	}
 	if s.fail {
 		return nil, gensign.NewErrorWithMsg(gensign.HandlerGenCSRErr, "stub", "scripted generation failure")
@@ -410,7 +441,7 @@ func main() {
 				name string
 				v    any
 			}{{"", nil}, {"-with-an-error-value", fmt.Errorf("an error value")}, {"-with-a-gensign-error", gensign.NewErrorWithMsg(gensign.HandlerAuthN, "x", "a typed error used as panic value")}, {"-with-a-nil-gensign-error", nilErr}}
-			for mi, m0 := range []string{"Name", "Authenticate", "Generate", "CSRs", "AddCertsToAgent", "Name", "Authenticate", "Generate", "CSRs", "AddCertsToAgent", "empty-generate", "empty-generate-non-nil", "failing-generate", "failing-generate-plain"} {
+			for mi, m0 := range []string{"Name", "Authenticate", "Generate", "CSRs", "AddCertsToAgent", "Name", "Authenticate", "Generate", "CSRs", "AddCertsToAgent", "Name", "Authenticate", "Generate", "CSRs", "AddCertsToAgent", "empty-generate", "empty-generate-non-nil", "failing-generate", "failing-generate-plain", "failing-generate-unnamed-1", "failing-generate-unnamed-2"} {
 				m := m0
 				c := r.Case("fault", idx)
 				idx++
@@ -422,11 +453,15 @@ func main() {
 				if mi >= 5 && mi < 10 {
 					pv = pvals[1+(mi+len(shapes)+sh.Keys+sh.CSRs+sh.NCerts)%3]
 				}
+				if mi >= 10 && mi < 15 {
+					// the third five: the runtime raises the panic (nil map, index, nil pointer, type assertion)
+					pv.name, pv.v = "-raised-by-the-runtime", runtimePanic(mi+sh.Keys+sh.CSRs+sh.NCerts)
+				}
 				rec := faultRec{Shape: sh, Fault: "panic-in-" + m + pv.name, Stage: "panic", Frames: N, Signs: S}
 				switch m {
 				case "empty-generate", "empty-generate-non-nil":
 					rec.Fault, rec.Stage = m, "generation"
-				case "failing-generate", "failing-generate-plain":
+				case "failing-generate", "failing-generate-plain", "failing-generate-unnamed-1", "failing-generate-unnamed-2":
 					if sh.Real {
 						continue
 					}
@@ -447,6 +482,10 @@ func main() {
 						tr.inner.(*stubHandler).fail = true
 					case "failing-generate-plain":
 						tr.inner.(*stubHandler).fail, tr.inner.(*stubHandler).plain = true, true
+					case "failing-generate-unnamed-1":
+						tr.inner.(*stubHandler).fail, tr.inner.(*stubHandler).unnamed = true, 1
+					case "failing-generate-unnamed-2":
+						tr.inner.(*stubHandler).fail, tr.inner.(*stubHandler).unnamed = true, 2
 					}
 				})
 			}
@@ -619,8 +658,9 @@ func judge(r *ev.Run, c *ev.Case, e *env, sh shape, rec faultRec, inject func(*w
 		ok = rec.Result == "all-auth-failed"
 	case "generation":
 		ok = rec.Result == "csr-generation" || rec.Result == "configuration" || rec.Result == "invalid-params"
-		if rec.Fault == "failing-generate" {
-			ok = runErr != nil
+		if rec.Fault == "failing-generate" || strings.HasPrefix(rec.Fault, "failing-generate-unnamed") {
+			// the handler said what kind of failure it was (whether or not it named itself)
+			ok = rec.Result == "csr-generation"
 		}
 		if rec.Fault == "failing-generate-plain" {
 			// the handler's own error, as it is or classified: an error either way
